@@ -527,7 +527,8 @@ func (r *RowCache) uuidsByConditionsAsIndexes(conditions []ovsdb.Condition, nati
 		if !v.IsValid() {
 			return nil
 		}
-		isSet := v.Kind() == reflect.Slice || v.Kind() == reflect.Array
+		// optional values (pointers) are sets of zero or one element
+		isSet := v.Kind() == reflect.Slice || v.Kind() == reflect.Array || v.Kind() == reflect.Ptr
 		if condition.Function == ovsdb.ConditionIncludes && isSet {
 			return nil
 		}
